@@ -208,6 +208,7 @@ struct Cli {
     int signalCount = 0;
     QMap<QString, QBuffer *> recvBuffers;
     QMap<QString, QXmppTransferJob *> jobs;
+    bool destroying = false;
     int sigMark = 0;     // journal position of the last connect / cut / disconnect: wait_signal only looks at later signals
     int expectConn = 0;  // index of the connection the script currently talks about (set by 'connect')
     Conn *current() { return conns.size() > expectConn ? conns.last() : nullptr; }
@@ -234,6 +235,7 @@ struct Case {
     ~Case()
     {
         for (auto &c : clis) {
+            c->destroying = true;
             c->client.reset();
             for (auto *cn : c->conns) {
                 if (cn->sock) {
@@ -498,6 +500,7 @@ struct Case {
             return true;
         }
         if (op == u"destroy") {
+            cli(st).destroying = true;
             cli(st).client.reset();
             return true;
         }
@@ -677,6 +680,7 @@ struct Case {
                     o["text"] = errText(std::get<QXmppError>(r));
                 }
                 J(o);
+                if (!cp->client || cp->destroying) return;  // completions delivered by the client's own destructor must not call back into it
                 if (reenter == u"disconnect") cp->client->disconnectFromServer();
                 else if (reenter == u"sendIq") {
                     QXmppIq iq2(QXmppIq::Get);
